@@ -7,23 +7,31 @@ ID = 'C01'
 LEVEL = 'proof'
 RULE = ('exhaustive: every shape of rank 1..R with extents 1..E, every flat offset (strides, indices, ndindex) and every '
         'multi-index (offset, row- and column-major ndarray read/write); container kinds vec/std::array/static_vector; '
-        'random shapes with prod near 2^31 / 2^40 at index level. non-trivial = shape has >= 2 axes with extent > 1')
+        'random shapes with prod near 2^31 / 2^40 at index level; machine width: int32 / uint32 / int64 / uint64 element types x '
+        'vec/std::array/static_vector/run-time tuple (and mixed pairs for compute_offset) on shapes whose element count and leading stride straddle '
+        '2^31, 2^32, 2^40, 2^63, 2^64, offsets at the marks +-1, last element, leading axis at its maximum, random (exact Python integers). '
+        'non-trivial = shape has >= 2 axes with extent > 1')
 EXHAUSTIVE = {'quick': True, 'thorough': True}
 ANCHORS = {'NmVerif.strides': 'index::compute_strides', 'NmVerif.computeOffset': 'index::compute_offset',
            'NmVerif.computeIndices/ndindex': 'index::compute_indices, index::ndindex_t::operator[]',
-           'NmVerif.NDA.get?/set': 'array::ndarray_t::operator() with row_major_offset_t / column_major_offset_t'}
+           'NmVerif.NDA.get?/set': 'array::ndarray_t::operator() with row_major_offset_t / column_major_offset_t',
+           'NmVerif.mStrides/mStrideFrom': 'index::stride / index::compute_strides with the suffix product formed in the element type of the shape container',
+           'NmVerif.mOffset': 'index::compute_offset: every operand widened to nm_size_t before the multiplication (run-time loop and template_for branch)',
+           'NmVerif.mIndices/mNdindex': 'index::compute_indices (3- and 2-argument forms) with 64-bit quotient/remainder stored into the element type of the shape'}
 MANIFEST = dict(
-    text='Proof: 16 Lean theorems (round trip both ways, in-shape, suffix-product strides, enumeration = lexicographic list of all multi-indices without repetition, row/column-major get/set laws) for every rank and extent; tied to the C++ by an exhaustive small-scope + large-extent differential run of compute_strides/compute_offset/compute_indices/ndindex/ndarray_t access on every check.',
-    note='Lean kernel + propext/Classical.choice/Quot.sound; model hand-written, fidelity rests on the correspondence run; unbounded Nat in the model, machine width covered by intermediates_le_prod and extents near 2^31/2^40; compile-time-constant and clipped argument kinds of compute_strides / compute_offset / compute_indices / product / ndindex run over a fixed table in a generated TU (harness/gen_c01_ct.py); the full kind matrix is C09.',
+    text='Proof: 27 Lean theorems (round trip both ways, in-shape, suffix-product strides, enumeration = lexicographic list of all multi-indices without repetition, row/column-major get/set laws; machine-width model with the element type of the index containers as a parameter: strides / offset / indices / both round trips are exact whenever extents and the leading stride fit the element type and the element count is at most 2^64, with counterexamples outside) for every rank and extent; tied to the C++ by an exhaustive small-scope + large-extent differential run of compute_strides/compute_offset/compute_indices/ndindex/ndarray_t access on every check.',
+    note='Lean kernel + propext/Classical.choice/Quot.sound; model hand-written, fidelity rests on the correspondence run; unbounded Nat in the base model; machine width: NmVerif.Index.MachineAddr models 32/64-bit signed/unsigned element types and 64-bit nm_size_t (mStrides_exact, computeOffset_widened_exact, mIndices_exact, machine round trips) and is compared with the real code on 32/64-bit containers of every run-time kind up to 2^64 (h_c01w); compile-time-constant and clipped argument kinds of compute_strides / compute_offset / compute_indices / product / ndindex run over a fixed table in a generated TU (harness/gen_c01_ct.py); the full kind matrix is C09.',
     technique='Lean 4 induction proofs over List Nat shapes + differential correspondence (exhaustive small scope)')
-ASSUMPTIONS = ['size_t arithmetic does not wrap: Props.C01.intermediates_le_prod + large-extent cases below 2^40',
+ASSUMPTIONS = ['nm_size_t is 64 bit (SZ = 2^64 in NmVerif.Index.MachineAddr; the harness platform); element types narrower than int (integral promotion) are not modelled',
+               'signed overflow in index::stride is undefined behaviour: modelled as `none`, signed off-domain inputs are compared with the Python oracle only',
                'compile-time-constant and clipped index kinds are covered by C09 kind matrix, not here']
 
 
 def harness_specs(tier):
     return [dict(name='h_c01', src='h_c01.cpp', flavour='fast'),
             dict(name='h_c01ct', src='h_c01ct.cpp', flavour='fast'),     # generated: harness/gen_c01_ct.py
-            dict(name='h_c01s', src='h_c01s.cpp', flavour='fast')]      # user-chosen strides containers
+            dict(name='h_c01s', src='h_c01s.cpp', flavour='fast'),      # user-chosen strides containers
+            dict(name='h_c01w', src='h_c01w.cpp', flavour='fast')]      # machine width: 32/64-bit signed/unsigned element types
 
 
 CT_TABLE = [[2, 3, 4], [3, 2], [4], [2, 1, 3], [1], [3, 3], [2, 2, 2, 2], [4, 3]]     # = TABLE of harness/gen_c01_ct.py
@@ -42,7 +50,195 @@ def indices_py(off, s):
     return [(off // st[k]) % s[k] for k in range(len(s))]
 
 
+# ----------------------------------------------------------------------------------------------------------------
+# machine width (harness/h_c01w.cpp, NmVerif.Index.MachineAddr): element types of the index containers
+# ----------------------------------------------------------------------------------------------------------------
+W_LIM = {'i32': 2 ** 31, 'u32': 2 ** 32, 'i64': 2 ** 63, 'u64': 2 ** 64}       # number of non-negative values
+W_KINDS = ['vec', 'arr', 'sv', 'tup']      # dynamic list, fixed std::array (rank <= 6), bounded static_vector, run-time tuple (rank <= 3)
+
+
+def w_kind(n, r):
+    k = W_KINDS[n % 4]
+    return 'sv' if (k == 'tup' and r > 3) else 'vec' if (k == 'arr' and r > 6) else k
+
+W_PAIRS = [('i32', 'i32'), ('u32', 'u32'), ('i64', 'i64'), ('u64', 'u64'), ('i32', 'u64'), ('u64', 'i32'), ('i32', 'u32')]
+SZ = 2 ** 64
+
+
+def w_in_domain(ty, s):
+    """hypotheses of mStrides_exact / mIndices_exact: extents >= 1 that fit, suffix product of the tail fits"""
+    return all(1 <= e < W_LIM[ty] for e in s) and prod(s[1:]) < W_LIM[ty]
+
+
+def w_factor(rng, target, r):
+    """r extents >= 1 whose product is <= target and (for the last few) close to it"""
+    out = []
+    rem = target
+    for k in range(r):
+        if k == r - 1:
+            e = rem
+        else:
+            e = int(round(rem ** (1.0 / (r - k)) * rng.uniform(0.4, 1.6)))
+        e = max(1, min(e, rem))
+        out.append(e)
+        rem = max(1, rem // e)
+    rng.shuffle(out)
+    return out
+
+
+def w_shapes(tier, rng, ty):
+    """shapes in the domain of `ty` whose element count and whose leading stride straddle 2^31, 2^32, 2^40, 2^63, 2^64"""
+    M = W_LIM[ty]
+    marks = [2 ** 31, 2 ** 32, 2 ** 40, 2 ** 63, 2 ** 64]
+    # the seeded / textbook shapes
+    fixed = [[3, 2 ** 30], [5, 1024, 2 ** 20], [8, 1, 1024, 1024, 1, 1024], [2, 2 ** 30], [2 ** 15, 2 ** 16], [2 ** 16, 2 ** 15],
+             [4, 2 ** 30 + 1], [2, 2, 2 ** 30 - 1], [2 ** 31 - 1], [2 ** 31 - 1, 2 ** 31 - 1], [3, 1, 2 ** 31 - 1], [2 ** 31 - 1, 1, 1]]
+    if M > 2 ** 31:
+        fixed += [[2 ** 32 - 1], [2 ** 32 - 1, 2 ** 32 - 1], [2 ** 16, 2 ** 16], [3, 2 ** 16 - 1, 2 ** 16 + 1], [2, 2 ** 31], [2 ** 32 - 1, 2 ** 31, 1]]
+    if M > 2 ** 32:
+        fixed += [[2 ** 32, 2 ** 31 - 1], [2 ** 31, 2 ** 31, 2], [2 ** 21, 2 ** 21, 2 ** 21], [2 ** 62, 2], [3, 2 ** 62], [2 ** 63 - 1], [1, 2 ** 63 - 1, 1],
+                  [2 ** 32, 2 ** 32 - 1], [2 ** 16] * 4 if M > 2 ** 63 else [2 ** 16, 2 ** 16, 2 ** 16, 2 ** 15]]
+    if M > 2 ** 63:
+        fixed += [[2 ** 64 - 1], [2, 2 ** 63], [2 ** 32, 2 ** 32], [1, 2 ** 64 - 1], [3, 2 ** 63 + 5], [2 ** 32 + 1, 2 ** 32 - 1]]
+    for s in fixed:
+        if w_in_domain(ty, s):
+            yield s
+    n = 40 if tier == 'quick' else 400
+    for t in range(n):
+        r = rng.randint(1, 6)
+        # leading stride: just below the limit of the type, or near one of the marks below it
+        tails = [M - 1 - rng.randrange(0, 4), M // 2 + rng.randrange(-2, 3)] + [m + rng.randrange(-3, 0) for m in marks if m < M] + [rng.randrange(1, 2 ** 20)]
+        tail_target = max(1, tails[t % len(tails)])
+        tail = w_factor(rng, tail_target, r - 1) if r > 1 else []
+        pt = prod(tail)
+        # element count: straddle a mark
+        m = marks[(t // len(tails)) % len(marks)]
+        a = m // pt + rng.choice([-1, 0, 0, 1, 1, 2])
+        a = max(1, min(a, M - 1))
+        s = [a] + tail
+        if w_in_domain(ty, s):
+            yield s
+
+
+def _kv(req):
+    return dict(x.split('=', 1) for x in req.split()[1:] if '=' in x)
+
+
+def _nats(v):
+    return [] if v in ('[]', '') else [int(x) for x in v.split(',')]
+
+
+def pred_strides_narrow_element_type(case):
+    """compute_strides / the two-argument compute_indices on a shape whose LEADING stride (product of all extents but the
+    first) is not representable in the element type of the shape container: index::stride forms the product in that type"""
+    op = case.req.split()[0]
+    if op not in ('w_strides', 'w_indices'):
+        return False
+    kv = _kv(case.req)
+    if kv.get('ty') not in W_LIM or 'shape' not in kv:
+        return False
+    s = _nats(kv['shape'])
+    return all(1 <= e < W_LIM[kv['ty']] for e in s) and prod(s[1:]) >= W_LIM[kv['ty']]
+
+
+KNOWN_PREDICATES = {'strides_narrow_element_type': pred_strides_narrow_element_type}
+
+
+def w_wrap(ty, x):
+    return x % W_LIM[ty] if ty[0] == 'u' else ((x + W_LIM[ty]) % (2 * W_LIM[ty]) - W_LIM[ty])
+
+
+def w_offdomain_cases(tier, rng):
+    """known finding strides.narrow-element-type: extents fit the element type, the leading stride does not.
+    Unsigned element types wrap (well defined: the model mirrors it, `mStrides_unsigned_wrap_counterexample`); for signed
+    ones the multiplication overflows (UB, model answer `ub`, not compared: `model=False`)."""
+    table = [('u32', [2, 65537, 65537], [0, 7, 4295098369, 2 ** 33]), ('u32', [2, 65536, 65536], [5]), ('u32', [3, 2 ** 20, 2 ** 20, 5], [12345678901]),
+             ('u32', [5, 2 ** 32 - 1, 2], [2 ** 33 + 1]), ('u64', [2, 2 ** 32 + 1, 2 ** 32 + 1], [2 ** 34 + 3]), ('u64', [3, 2 ** 63, 2], [7])]
+    for i in range(6 if tier == 'quick' else 60):
+        ty = ('u32', 'u64')[i % 2]
+        M = W_LIM[ty]
+        r = rng.randint(2, 5)
+        tail = w_factor(rng, M * rng.randint(2, 2 ** 10) + rng.randrange(0, 2 ** 10), r)
+        if all(e < M for e in tail) and prod(tail) >= M and prod(tail) < 2 ** 100:
+            table.append((ty, [rng.randint(1, 5)] + tail, [rng.randrange(2 ** 63)]))
+    for n, (ty, s, offs) in enumerate(table):
+        st = strides_py(s)
+        k = w_kind(n, len(s))
+        yield Case('w_strides ty=%s kind=%s shape=%s' % (ty, k, fmt(s)), 'h_c01w', dom=False, oracle='ok ' + fmt(st), tags=['w_strides', 'off-domain', 'ty=' + ty])
+        wst = [w_wrap(ty, x) for x in st]
+        for off in offs:
+            if 0 in wst and tier == 'quick' and n > 1:
+                continue        # division by zero kills the harness; one instance is enough in the quick tier
+            yield Case('w_indices ty=%s kind=%s off=%d shape=%s' % (ty, k, off, fmt(s)), 'h_c01w', dom=False, oracle='ok ' + fmt(indices_py(off, s)), tags=['w_indices', 'off-domain', 'ty=' + ty])
+    for n, (ty, s) in enumerate([('i32', [2, 65536, 65536]), ('i32', [3, 46341, 46341]), ('i64', [2, 2 ** 32, 2 ** 31]), ('i32', [1, 2 ** 16, 2 ** 15])]):
+        yield Case('w_strides ty=%s kind=%s shape=%s' % (ty, w_kind(n, len(s)), fmt(s)), 'h_c01w', dom=False, model=False, oracle='ok ' + fmt(strides_py(s)),
+                   tags=['w_strides', 'off-domain', 'signed-overflow', 'ty=' + ty])
+
+
+def w_cases(tier, rng):
+    ctr = 0
+    yield from w_offdomain_cases(tier, rng)
+    # (a) small scope, every element type x kind: every offset / index
+    for s in shapes(3, 3, min_rank=1):
+        n = prod(s); st = strides_py(s); nt = sum(1 for e in s if e > 1) >= 2
+        for ty in W_LIM:
+            for k in W_KINDS:
+                yield Case('w_strides ty=%s kind=%s shape=%s' % (ty, k, fmt(s)), 'h_c01w', oracle='ok ' + fmt(st), nontrivial=nt, tags=['w_strides', 'small', 'ty=' + ty, 'kind=' + k])
+        for off in range(n):
+            idx = indices_py(off, s)
+            for rep in range(2):
+                ctr += 1
+                ty = list(W_LIM)[ctr % 4]; k = W_KINDS[(ctr // 4) % 4]
+                same = ' offty=same' if (ctr // 16) % 2 else ''
+                yield Case('w_indices ty=%s kind=%s off=%d shape=%s%s' % (ty, k, off, fmt(s), same), 'h_c01w', oracle='ok ' + fmt(idx), nontrivial=nt, tags=['w_indices', 'small', 'ty=' + ty, 'kind=' + k])
+                ti, ts = W_PAIRS[ctr % 7]; ki = W_KINDS[(ctr // 7) % 4]; ks = W_KINDS[(ctr // 28) % 4]
+                yield Case('w_offset tyi=%s tys=%s ki=%s ks=%s idx=%s strides=%s' % (ti, ts, ki, ks, fmt(idx), fmt(st)), 'h_c01w', oracle='ok %d' % off, nontrivial=nt,
+                           tags=['w_offset', 'small', 'ty=%s/%s' % (ti, ts), 'kind=%s/%s' % (ki, ks)])
+    # (b) large extents: only index math.  Everything here satisfies the hypotheses of the machine-width theorems
+    #     (operands fit the element type, leading stride fits, true offset < 2^64), so the exact Python integers are demanded.
+    for ty in W_LIM:
+        M = W_LIM[ty]
+        for s in w_shapes(tier, rng, ty):
+            n = prod(s); st = strides_py(s); r = len(s)
+            nt = sum(1 for e in s if e > 1) >= 2
+            size_tag = 'n>=2^64' if n >= 2 ** 64 else 'n>=2^63' if n >= 2 ** 63 else 'n>=2^32' if n >= 2 ** 32 else 'n>=2^31' if n >= 2 ** 31 else 'n<2^31'
+            tags = ['large', 'ty=' + ty, size_tag]
+            for k in W_KINDS:
+                if (k == 'arr' and r > 6) or (k == 'tup' and r > 3):
+                    continue
+                yield Case('w_strides ty=%s kind=%s shape=%s' % (ty, k, fmt(s)), 'h_c01w', oracle='ok ' + fmt(st), nontrivial=nt, tags=['w_strides', 'kind=' + k] + tags)
+            # multi-indices: last element, leading axis at its maximum, random ones, neighbours of the marks
+            top = min(n, SZ)                      # offsets must be size_t values
+            offs = {top - 1, 0, rng.randrange(top), rng.randrange(top), (s[0] - 1) * st[0] if (s[0] - 1) * st[0] < top else top - 1}
+            for m in (2 ** 31, 2 ** 32, 2 ** 63):
+                for d in (-1, 0, 1):
+                    if 0 <= m + d < top:
+                        offs.add(m + d)
+            for off in sorted(offs):
+                idx = indices_py(off, s)
+                assert offset_py(idx, st) == off
+                ctr += 1
+                big = max(a * b for a, b in zip(idx, st))
+                ttag = 'term>=2^32' if big >= 2 ** 32 else 'term>=2^31' if big >= 2 ** 31 else 'term<2^31'
+                k = w_kind(ctr, r)
+                same = ' offty=same' if (off < M and (ctr // 4) % 3 == 0) else ''
+                yield Case('w_indices ty=%s kind=%s off=%d shape=%s%s' % (ty, k, off, fmt(s), same), 'h_c01w', oracle='ok ' + fmt(idx), nontrivial=nt, tags=['w_indices', 'kind=' + k] + tags)
+                if ctr % 5 == 0:
+                    yield Case('w_indices3 ty=%s kind=%s off=%d shape=%s strides=%s' % (ty, k, off, fmt(s), fmt(st)), 'h_c01w', oracle='ok ' + fmt(idx), nontrivial=nt, tags=['w_indices3', 'kind=' + k] + tags)
+                # offset: same element type for both containers in rotating kind pairs, plus the mixed pairs that can hold the operands
+                ki = w_kind(ctr // 4, r); ks = w_kind(ctr // 16, r)
+                pairs = [(ty, ty)] + [p for p in W_PAIRS if p[0] != p[1] and (ctr % 3 == 0 or r <= 3) and all(x < W_LIM[p[0]] for x in idx) and all(x < W_LIM[p[1]] for x in st)]
+                for ti, ts in pairs:
+                    yield Case('w_offset tyi=%s tys=%s ki=%s ks=%s idx=%s strides=%s' % (ti, ts, ki, ks, fmt(idx), fmt(st)), 'h_c01w', oracle='ok %d' % off, nontrivial=nt,
+                               tags=['w_offset', 'ty=%s/%s' % (ti, ts), 'kind=%s/%s' % (ki, ks), ttag] + tags)
+
+
 def gen(tier, rng):
+    yield from gen_nat(tier, rng)
+    yield from w_cases(tier, rng)
+
+
+def gen_nat(tier, rng):
     R, E = (4, 3) if tier == 'quick' else (5, 4)
     kinds = ['vec', 'arr', 'sv']
     for s in shapes(R, E, min_rank=1):
